@@ -69,6 +69,7 @@ def run(run, ix, tier):
         run.rule(r, floor=fl)
     check_tolerance_bits(run, ix)
     check_radius_estimate(run, ix)
+    check_first_segment_and_workprec(run, ix)
     m = ix.module(ODES)
     od = ix.func(ODES, 'odefun')
     interp = ix.func(ODES, 'odefun.interpolant')
@@ -333,8 +334,30 @@ def run(run, ix, tier):
         raise AnalysisError('ode_taylor: boundary expression changed')
     rname = rv[0]
     folds = 0
+    # snapshots of the radius: names that only ever hold None or a value the radius had AFTER the fold over the
+    # components (every `name = radius` lies below the last loop over the components).  Since the radius only shrinks
+    # after the fold, putting a snapshot back cannot exceed the folded value.
+    fold_end = max([lp.end_lineno for lp in _walk_own(tay.node)
+                    if isinstance(lp, ast.For) and norm(lp.iter) == norm(serv)] or [0])
+    snap = {}
+    for x in _walk_own(tay.node):
+        if isinstance(x, ast.Assign):
+            for tg in x.targets:
+                if isinstance(tg, ast.Name) and tg.id != rname:
+                    isnone = isinstance(x.value, ast.Constant) and x.value.value is None
+                    issnap = isinstance(x.value, ast.Name) and x.value.id == rname and x.lineno > fold_end
+                    snap[tg.id] = snap.get(tg.id, True) and (isnone or issnap)
+        elif isinstance(x, (ast.AugAssign, ast.For, ast.comprehension, ast.With, ast.NamedExpr)):
+            for tg in ast.walk(getattr(x, 'target', None) or ast.Pass()):
+                if isinstance(tg, ast.Name):
+                    snap[tg.id] = False
+    snapshots = {k for k, v in snap.items() if v}
     for x in _walk_own(tay.node):
         tgt = None
+        if isinstance(x, ast.Assign) and isinstance(x.targets[0], ast.Name) and x.targets[0].id == rname and \
+                isinstance(x.value, ast.Name) and x.value.id in snapshots and x.lineno > fold_end:
+            run.ok('O-R5', 'radius only put back to an earlier value taken after the fold: %s' % norm(x))
+            continue
         if isinstance(x, ast.Assign) and isinstance(x.targets[0], ast.Name) and x.targets[0].id == rname:
             tgt, val = x, x.value
         elif isinstance(x, ast.AugAssign) and isinstance(x.target, ast.Name) and x.target.id == rname:
@@ -563,3 +586,133 @@ def check_radius_estimate(run, ix):
                          '55406.2 (relative error 2e-5)', line=quotient[0].lineno))
     else:
         run.ok('O-R11', 'the step test is scaled by the size of the solution')
+
+
+# --------------------------------------------------------------------------- O-R12 / O-R13 / O-R14
+def check_first_segment_and_workprec(run, ix):
+    """O-R12 / O-R13 / O-R14 (third C34 hunt; repairs 3084d25, ae0610f, de71400).
+
+    O-R12  every call of the Taylor stepper made by odefun itself (the first segment) runs at the same frozen working
+           precision as the extensions made by get_series: inside a try block that first assigns `ctx.prec = <workprec>`
+           and whose finally puts the precision back.  At the caller's precision the boundary x0 + radius is rounded there,
+           and with an initial point of more bits than that it lands below x0 or several radii away.
+    O-R13  the frozen working precision covers the tolerance: evaluated over a grid of (prec, tol_prec) it is at least
+           tol_prec, otherwise no evaluation, at whatever precision, can deliver a tolerance below 2^-(prec+40).
+    O-R14  the loop that halves the step until the residual of the differential equation passes has an exit that does
+           not compare the residual with the absolute tolerance.  The Taylor coefficients are differences with step h
+           and carry an error of that relative order which no shorter step removes; with the absolute test as the only
+           exit a large solution or a large derivative has the step halved until the loop bound (2^-60 of the estimate),
+           and no value is returned in any reasonable time."""
+    from ..formula import Evaluator
+    run.rule('O-R12', floor=1, desc='the first segment is built at the frozen working precision')
+    run.rule('O-R13', floor=1, desc='the working precision covers the requested tolerance')
+    run.rule('O-R14', floor=1, desc='the step-halving loop ends when the residual is the error of the coefficients')
+    od = ix.func(ODES, 'odefun')
+    interp = ix.func(ODES, 'odefun.interpolant')
+    tay = ix.func(ODES, 'ode_taylor')
+    # the frozen precision name: what interpolant assigns to ctx.prec inside its try
+    wp = None
+    for t in _walk_own(interp.node):
+        if isinstance(t, ast.Try):
+            for st in t.body:
+                if isinstance(st, ast.Assign) and norm(st.targets[0]) == 'ctx.prec' and isinstance(st.value, ast.Name):
+                    wp = st.value.id
+    if wp is None:
+        # O-R1 reports an interpolant without a frozen precision; nothing to compare the first segment with
+        for r in ('O-R12', 'O-R13', 'O-R14'):
+            run.ok(r, 'not decided: the interpolant has no frozen precision (see O-R1)')
+        return
+    # ---- O-R12
+    first = [c for c in _walk_own(od.node) if isinstance(c, ast.Call) and norm(c.func) == tay.name]
+    if not first:
+        raise AnalysisError('odefun: first call of %s not found' % tay.name)
+    for c in first:
+        t = c
+        region = None
+        while t is not od.node:
+            par = t._parent
+            if isinstance(par, ast.Try) and any(t is b or any(t is y for y in ast.walk(b)) for b in par.body):
+                region = par
+                break
+            t = par
+        ok = False
+        if region is not None:
+            sets = [i for i, st in enumerate(region.body) if isinstance(st, ast.Assign) and
+                    norm(st.targets[0]) == 'ctx.prec' and isinstance(st.value, ast.Name) and st.value.id == wp]
+            callidx = [i for i, st in enumerate(region.body) if any(y is c for y in ast.walk(st))]
+            restored = any(isinstance(st, ast.Assign) and norm(st.targets[0]) == 'ctx.prec' for st in region.finalbody)
+            ok = bool(sets) and bool(callidx) and sets[0] < callidx[0] and restored
+        if ok:
+            run.ok('O-R12', '%s runs under ctx.prec = %s, restored in finally' % (norm(c, 50), wp))
+        else:
+            run.fail(Finding('O-R12', ODES, od.qualname, norm(c),
+                             'the first Taylor segment is built at the caller\'s precision while every later one is built '
+                             'at %s: its boundary x0 + radius is rounded to the caller\'s precision, and with an initial '
+                             'point of more bits than that (x0 = 2**60 + 100 at 53 bits) it lands below x0, so that every '
+                             'value is continued from the first polynomial far outside its radius (f(x0) = 3.2e-19 '
+                             'instead of 1)' % wp, line=c.lineno))
+    # ---- O-R13
+    defs = [x for x in _walk_own(od.node) if isinstance(x, ast.Assign) and len(x.targets) == 1 and
+            isinstance(x.targets[0], ast.Name) and x.targets[0].id == wp]
+    if len(defs) != 1:
+        raise AnalysisError('odefun: definition of %s not unique' % wp)
+    class _Sub(ast.NodeTransformer):
+        def visit_Attribute(self, n):
+            if norm(n) == 'ctx.prec':
+                return ast.copy_location(ast.Name(id='prec__', ctx=ast.Load()), n)
+            return self.generic_visit(n)
+    import copy as _copy
+    expr = _Sub().visit(_copy.deepcopy(defs[0].value))
+    ev = Evaluator()
+    bad = None
+    for prec in (4, 24, 53, 100, 1000):
+        for tp in (5, prec // 2, prec + 10, 2 * prec + 10, 10 * prec):
+            got = ev.ev(expr, {'prec__': prec, 'tol_prec': tp})
+            if (got < tp or got < prec) and bad is None:
+                bad = (prec, tp, got)
+    if bad:
+        run.fail(Finding('O-R13', ODES, od.qualname, norm(defs[0]),
+                         'created at %d bits with a tolerance of %d bits the solver works with %d bits at every later '
+                         'evaluation, whatever the precision then: the tolerance cannot be met (odefun(F, 0, 1, '
+                         'tol=1e-40) created at 53 bits and evaluated at 200 bits was off by 7e-29)' % bad,
+                         line=defs[0].lineno))
+    else:
+        run.ok('O-R13', '%s >= max(prec, tol_prec) on the whole grid' % norm(defs[0]))
+    # ---- O-R14
+    loops = []
+    for lp in _walk_own(tay.node):
+        if isinstance(lp, (ast.For, ast.While)):
+            calls_f = any(isinstance(c, ast.Call) and norm(c.func) == tay.params[1] and c.args and 'radius' in norm(c.args[0])
+                          for c in ast.walk(lp))
+            shrinks = any(isinstance(a, ast.AugAssign) and norm(a.target) == 'radius' and isinstance(a.op, ast.Div)
+                          for a in ast.walk(lp))
+            if calls_f and shrinks:
+                loops.append(lp)
+    if not loops:
+        # O-R10 reports the missing residual test
+        run.ok('O-R14', 'no step-halving loop (see O-R10)')
+        return
+    for lp in loops:
+        guards = []
+        for i_ in ast.walk(lp):
+            if isinstance(i_, ast.If):
+                # a break anywhere below this test, with no nearer test above it
+                def _has_break(body):
+                    for st in body:
+                        if isinstance(st, ast.Break):
+                            return True
+                        if isinstance(st, ast.If) and (_has_break(st.body) or _has_break(st.orelse)):
+                            return True
+                    return False
+                if _has_break(i_.body) or _has_break(i_.orelse):
+                    guards.append(i_)
+        relative = [g for g in guards if 'tol' not in norm(g.test)]
+        if relative:
+            run.ok('O-R14', 'the halving loop at line %d also ends on `%s`' % (lp.lineno, norm(relative[0].test, 60)))
+        else:
+            run.fail(Finding('O-R14', ODES, tay.qualname, 'for/while: ' + (norm(guards[0].test) if guards else 'no exit'),
+                             'the step is halved until the residual of the Taylor polynomial is below the ABSOLUTE '
+                             'tolerance and by nothing else: the coefficients carry a relative error of the order of the '
+                             'difference step, so for a large solution or derivative the test cannot pass and the step '
+                             'shrinks to the loop bound (odefun(lambda x, y: 2*x*y, 0, 1)(5) did not return within 325000 '
+                             'evaluations of F)', line=lp.lineno))
